@@ -37,6 +37,9 @@ type World struct {
 
 	// LastBlockPanic is set by NextBlock when begin/end block processing panicked.
 	LastBlockPanic string
+	// BeginBlockInject, if set, runs once inside the next block's begin-block processing at the position of
+	// the cosmos staking/slashing begin-blockers (used to slash a validator the way the chain does).
+	BeginBlockInject func(ctx sdk.Context)
 	// MockBankPanics counts overdraft panics of the mock bank converted to errors.
 	Seed byte
 }
@@ -251,6 +254,13 @@ func (w *World) NextBlock(dt time.Duration) (panicMsg string) {
 		// --- begin block (app order)
 		ks.TimerStoreKeeper.BeginBlock(ctx)
 		ks.Rewards.BeginBlock(ctx)
+		// position of the staking/slashing/evidence begin-blockers of the app (before dualstaking):
+		// a scenario may inject a validator slash here, as the slashing module would do
+		if w.BeginBlockInject != nil {
+			inj := w.BeginBlockInject
+			w.BeginBlockInject = nil
+			inj(ctx)
+		}
 		ks.Dualstaking.BeginBlock(ctx, abci.RequestBeginBlock{})
 		ks.Spec.BeginBlock(ctx)
 		ks.Epochstorage.BeginBlock(ctx)
